@@ -172,7 +172,12 @@ Fixpoint model_from (tbl : list (string * string * bool)) (a : aclcfg) (rq : opt
       let allow := allow_of tbl in          (* the table in force during this step *)
       let tbl' := match s with SAcl t => t | _ => tbl end in
       let '(st', g, cr) := run_step allow a rq st s in
-      let is_sub := match s with SSub | SPoll => true | _ => false end in   (* a walk *)
+      let is_sub := match s, rs_phase st with         (* a walk *)
+                    | SSub, _ => true
+                    | SPoll, PPoll _ _ => true
+                    | SPoll, PBefore => true              (* another caller's Subscribe, see the harness *)
+                    | _, _ => false
+                    end in
       let v2 := if cres_eqb (ob_cres ob) cr then [] else [(i, 1%N)] in
       let vd := match ob_dump ob, is_sub && negb (N.eqb (ob_burst ob) 0) with
                 | Some d, false =>
